@@ -13,6 +13,7 @@
   value modulo the buffer length). Core Lean only (linked into the driver).
 -/
 import MRB.Conc.Machine
+import MRB.Conc.Drop
 
 namespace MRB.Conc
 
@@ -150,5 +151,63 @@ theorem replay_reach {L : Nat} {hasW : Bool} (ls : List (List String)) {s : St} 
   induction ls generalizing s with
   | nil => exact r
   | cons l ls ih => exact ih (replayLine_reach r l)
+
+/-! ### the drop protocol -/
+
+/-- One record of the drop protocol: `cdf T` (T stored `false` into its liveness flag), `cdd T old` (T's read-modify-write on the
+counter of live iterators returned `old`), `cdx T` (T released the storage). Each must be an enabled `DropStep`; the value the
+real read-modify-write returned must be the machine's counter. A thread whose decrement was not the last one is `finish`ed at once
+(it performs no further step of the protocol). -/
+def dropReplayLine (s : DropSt) (ws : List String) : DropSt × String :=
+  match ws with
+  | ["cdf", t] =>
+    match roleOf t with
+    | some t => if s.ph t = .live then (clearFlag s t, "ok") else (s, s!"fail flag-cleared-in-phase-{repr (s.ph t)}")
+    | none => (s, "fail bad-line")
+  | ["cdd", t, old] =>
+    match roleOf t, old.toNat? with
+    | some t, some old =>
+      if s.ph t = .cleared then
+        if old = s.count then
+          if (decrement s t).ph t = .decOther then (finish (decrement s t) t, s!"ok last=false") else (decrement s t, s!"ok last=true")
+        else (s, s!"fail counter real={old} machine={s.count}")
+      else (s, s!"fail decrement-before-flag-clear phase={repr (s.ph t)}")
+    | _, _ => (s, "fail bad-line")
+  | ["cdx", t] =>
+    match roleOf t with
+    | some t => if s.ph t = .decLast then (free s t, "ok") else (s, s!"fail released-by-a-thread-that-is-not-the-last phase={repr (s.ph t)}")
+    | none => (s, "fail bad-line")
+  | _ => (s, "fail bad-line")
+
+theorem dropReplayLine_reach {hasW : Bool} {s : DropSt} (r : DropReach hasW s) (ws : List String) :
+    DropReach hasW (dropReplayLine s ws).1 := by
+  unfold dropReplayLine
+  split
+  · split
+    · rename_i t _
+      by_cases h : s.ph t = .live
+      · rw [if_pos h]; exact DropReach.step r (DropStep.clear s t h)
+      · rw [if_neg h]; exact r
+    · exact r
+  · split
+    · rename_i t old _ _
+      by_cases hc : s.ph t = .cleared
+      · rw [if_pos hc]
+        by_cases ho : old = s.count
+        · rw [if_pos ho]
+          have r1 := DropReach.step r (DropStep.dec s t hc)
+          by_cases h2 : (decrement s t).ph t = .decOther
+          · rw [if_pos h2]; exact DropReach.step r1 (DropStep.finish _ t h2)
+          · rw [if_neg h2]; exact r1
+        · rw [if_neg ho]; exact r
+      · rw [if_neg hc]; exact r
+    · exact r
+  · split
+    · rename_i t _
+      by_cases h : s.ph t = .decLast
+      · rw [if_pos h]; exact DropReach.step r (DropStep.free s t h)
+      · rw [if_neg h]; exact r
+    · exact r
+  · exact r
 
 end MRB.Conc
